@@ -1,6 +1,6 @@
 (* Executable glue for the correspondence of the value-level core (Gen + Exec) and the
    reference semantics (Valid) with generated programs. *)
-From GJS Require Import Base Bounds IntSize Regex Schema GoType Ident Gen Exec Valid.
+From GJS Require Import Base Bounds IntSize Regex Schema GoType Ident Gen Exec Valid WfP.
 
 (* comparison of Go values: structs and maps as finite maps *)
 Fixpoint gval_eqb (fuel : nat) (a b : gval) {struct fuel} : bool :=
@@ -78,6 +78,16 @@ Definition case_mismatches (c : ccase) : list (N * N) :=
 (* the reference verdicts, for the oracle step *)
 Definition case_valid (c : ccase) : list (N * bool) :=
   map (fun d => (d_idx d, valid fmt_tab (cc_defs c) 100 (cc_root c) (d_doc d))) (cc_docs c).
+
+(* the certificate of C19_total: is every type the model generates for the case well formed *)
+Definition case_wf (c : ccase) : bool :=
+  match model_prog c with
+  | Done p =>
+      forallb (fun d => wf_ty (p_defs p) (snd d)) (p_defs p) &&
+      match p_root p with Some rt => wf_ty (p_defs p) rt | None => true end
+  | _ => true
+  end.
+Definition all_not_wf (cs : list (N * ccase)) : list N := map fst (filter (fun ic => negb (case_wf (snd ic))) cs).
 
 Definition all_mismatches (cs : list (N * ccase)) : list (N * list (N * N)) :=
   flat_map (fun ic => match case_mismatches (snd ic) with [] => [] | l => [(fst ic, l)] end) cs.
